@@ -34,3 +34,6 @@ def run(repo, res, tier):
     from .. import parserules as _pr14
     _an14 = _pr14.analyse(repo)
     _pr14.add_rule(res, _an14, "T2")
+    # the leap-second tables are found where the decoder looks for them
+    from .. import tablerules as _tb14
+    _tb14.rule_getattr_name(repo, res)
